@@ -1,6 +1,6 @@
 from . import session
 
-FAMILIES = [('forge', 1.0)]
+FAMILIES = [('forge', 1.0), ('zombie', 0.5)]
 
 def main(ctx):
     session.run(ctx, "C08", FAMILIES, quick_count=100, thorough_count=4000, prop_mod=session.PROP_MODS.get("C08"))
